@@ -9,7 +9,10 @@ import (
 	"sort"
 	"strconv"
 	"strings"
+	"sync"
 	"time"
+
+	"golang.org/x/tools/go/ssa"
 
 	"gose"
 )
@@ -50,7 +53,7 @@ func run(args []string) {
 	maxPaths := fs.Int("max-paths", 1000000, "path budget per harness")
 	wall := fs.Duration("wall", 0, "wall budget per harness")
 	out := fs.String("out", "", "result JSON file")
-	models := fs.Bool("models", false, "extract a model per completed path")
+	models := fs.Int("models", 0, "extract a model for up to N completed paths per harness (native validation)")
 	spare := fs.Bool("spare-cap", false, "append grows with spare capacity")
 	trace := fs.Bool("trace", false, "trace calls")
 	tags := fs.String("tags", "", "build tags")
@@ -97,6 +100,11 @@ func run(args []string) {
 		LoadS     float64
 		Harnesses []hres
 	}{LoadS: loadT.Seconds()}
+	cfg := gose.Config{Workers: *workers, SolverKind: *solver, FeasMs: *feas, ObligMs: *oblig, MaxSteps: *maxSteps,
+		MaxLoop: *maxLoop, MaxPaths: *maxPaths, Wall: *wall, Params: pm, ModelPerPath: *models > 0, ModelMax: *models, SpareCap: *spare, Trace: *trace, StopOnViol: *stopv}
+	eng := gose.NewEngine(prog, cfg)
+	var fns []*ssa.Function
+	pkgOf := map[string]string{}
 	for _, pp := range prog.PPkgs {
 		sp := prog.Prog.Package(pp.Types)
 		if sp == nil {
@@ -112,26 +120,31 @@ func run(args []string) {
 			if fn == nil || !re.MatchString(name) || fn.Signature.Params().Len() != 0 {
 				continue
 			}
-			cfg := gose.Config{Workers: *workers, SolverKind: *solver, FeasMs: *feas, ObligMs: *oblig, MaxSteps: *maxSteps,
-				MaxLoop: *maxLoop, MaxPaths: *maxPaths, Wall: *wall, Params: pm, ModelPerPath: *models, SpareCap: *spare, Trace: *trace, StopOnViol: *stopv}
-			eng := gose.NewEngine(prog, cfg)
-			hr := eng.RunHarness(fn)
-			report.Harnesses = append(report.Harnesses, hres{hr, pp.PkgPath})
-			fmt.Printf("%-40s paths=%d outcomes=%v forks=%d queries(oblig)=%d viol=%d unknown=%d problems=%d wall=%.1fs\n",
-				name, hr.Paths, hr.Outcomes, hr.Forks, hr.Obligations, len(hr.Violations), len(hr.Unknowns), len(hr.Problems), hr.Wall.Seconds())
-			for _, pr := range hr.Problems {
-				fmt.Println("   PROBLEM:", firstLines(pr, 12))
-			}
-			for i, v := range hr.Violations {
-				if i >= 5 {
-					break
-				}
-				fmt.Printf("   VIOL %s %s %s at %s inputs=%s\n", v.Kind, v.ID, v.Msg, v.Site, fmtInputs(v.Inputs))
-			}
-			for _, u := range hr.Unknowns {
-				fmt.Println("   UNKNOWN:", u)
-			}
+			fns = append(fns, fn)
+			pkgOf[name] = pp.PkgPath
 		}
+	}
+	var pmu sync.Mutex
+	results := eng.RunHarnesses(fns, func(hr *gose.HarnessResult) {
+		pmu.Lock()
+		defer pmu.Unlock()
+		fmt.Printf("%-40s paths=%d outcomes=%v forks=%d queries(oblig)=%d viol=%d unknown=%d problems=%d wall=%.1fs\n",
+			hr.Name, hr.Paths, hr.Outcomes, hr.Forks, hr.Obligations, len(hr.Violations), len(hr.Unknowns), len(hr.Problems), hr.Wall.Seconds())
+		for _, pr := range hr.Problems {
+			fmt.Println("   PROBLEM:", firstLines(pr, 12))
+		}
+		for i, v := range hr.Violations {
+			if i >= 5 {
+				break
+			}
+			fmt.Printf("   VIOL %s %s %s at %s inputs=%s\n", v.Kind, v.ID, v.Msg, v.Site, fmtInputs(v.Inputs))
+		}
+		for _, u := range hr.Unknowns {
+			fmt.Println("   UNKNOWN:", u)
+		}
+	})
+	for _, hr := range results {
+		report.Harnesses = append(report.Harnesses, hres{hr, pkgOf[hr.Name]})
 	}
 	if *out != "" {
 		b, _ := json.MarshalIndent(report, "", " ")
